@@ -159,7 +159,8 @@ pub fn timeout_raw(maxtime: Duration, fut: RecvFut, env: &mut WEnv) -> (r: Resul
         match r {
             Ok(Ok((e, p))) => final(env).recvd@ == old(env).recvd@.push(Msg { ev: e, prio: p, t: final(env).now@ })
                                && (!maxtime.inf ==> final(env).now@ <= old(env).now@ + maxtime.ns) && final(env).slack == old(env).slack,
-            Ok(Err(_)) => final(env).recvd == old(env).recvd,
+            // (async_priority_channel: recv fails only on a closed, drained channel)
+            Ok(Err(_)) => final(env).recvd == old(env).recvd && final(env).closed@,
             // the timer fires no earlier than asked; how much later is counted as slack
             Err(_) => final(env).recvd == old(env).recvd && !maxtime.inf && final(env).now@ >= old(env).now@ + maxtime.ns
                       && final(env).slack@ == old(env).slack@ + (final(env).now@ - (old(env).now@ + maxtime.ns)),
